@@ -62,20 +62,20 @@ func (lv *LVal) extend(s pstep) *LVal {
 }
 
 type deferred struct {
-	call *ssa.CallCommon
-	args []*SV
-	pos  token.Pos
+	call  *ssa.CallCommon
+	args  []*SV
+	pos   token.Pos
 	instr *ssa.Defer
 }
 
 type State struct {
-	cells   map[*ssa.Alloc]string
-	heaps   map[string]string
-	globals map[*ssa.Global]string
-	ghost   map[string]string
-	alloc   string
+	cells    map[*ssa.Alloc]string
+	heaps    map[string]string
+	globals  map[*ssa.Global]string
+	ghost    map[string]string
+	alloc    string
 	captured map[*ssa.Alloc]bool // local variables captured by a closure created on this path
-	defers  []deferred
+	defers   []deferred
 	// paramMode: heap lookups return parameter names and are recorded (spec function bodies)
 	paramHeaps *[]string
 }
@@ -354,18 +354,18 @@ func (c *Ctx) heapKeysOf(lv *LVal) []string {
 // Spec evaluation
 
 type Env struct {
-	c      *Ctx
-	vars   map[string]*SV
-	st     *State
-	old    *State
-	local  func(name string, st *State) *SV
-	pkg    *types.Package
-	inOld  bool
-	specFn string // name of spec function being defined (recursion)
-	oldVars map[string]*SV // variable bindings to use inside old()
+	c           *Ctx
+	vars        map[string]*SV
+	st          *State
+	old         *State
+	local       func(name string, st *State) *SV
+	pkg         *types.Package
+	inOld       bool
+	specFn      string         // name of spec function being defined (recursion)
+	oldVars     map[string]*SV // variable bindings to use inside old()
 	unfoldDepth int
-	loopOld *State // loop invariants: the state in which the loop was entered (loopold, keptSince, ...)
-	localsFirst bool // loop invariants: a name denotes the current value of the variable (parameters are mutable)
+	loopOld     *State // loop invariants: the state in which the loop was entered (loopold, keptSince, ...)
+	localsFirst bool   // loop invariants: a name denotes the current value of the variable (parameters are mutable)
 }
 
 func (e *Env) child() *Env {
